@@ -17,6 +17,7 @@ RULE = ('case = (c, A, b, K[, dont_sep]) with K a sequence over {0,+,S(2..4),e};
         'length<=3 (quick) / <=4 (thorough) plus random ones up to length 7; non-trivial = K has two adjacent cones of '
         'equal type or a separated nonlinear cone; distinct by input hash')
 TRUSTED = ['correspondence harness harness/props/c10.py (dense canonicalisation of scipy.sparse outputs)',
+           'translator harness/translator/forms_tr.py (Gen/GenForms.v: expressions of ECOS.apply translated structurally, build_cone_type_selectors as a fold with a running index), proved equal to the model for all inputs',
            'translator harness/translator/mosek_tab.py (Gen/GenMosek.v: MOSEK status tables, primal/dual decision, dispatch) — the only tie for mosek.py parse functions',
            'MOSEK itself is absent: meaning of appendcone/putconboundlist/gety is trusted; only the data handed to it is modelled',
            'strong duality of dualize_problem is not proved (weak duality is)']
@@ -340,7 +341,14 @@ def fq(v):
     return [Fraction(x) for x in v]
 
 
-def suite(ctx, name, cases_py, model_expr, eqb_expr, in_ty, out_ty, oracle):
+GEN_HEADER = (HEADER.replace('Base.Corr.', 'Gen.GenForms Base.Corr.') +
+              '\nDefinition gen_ecos_apply_q (x : list Q * matQ * list Q * list cone) :=\n'
+              "  let '(c, A, b, K) := x in match gen_ecos_apply qopp c A b K with\n"
+              '  | Ok d => Some (eG d, eh d, (el d, ee d, eq_ d), (eA d, eb d, ec d)) | Err _ => None end.')
+
+
+def suite(ctx, name, cases_py, model_expr, eqb_expr, in_ty, out_ty, oracle, header=None):
+    HEADER = header or globals()['HEADER']
     ctx.evaluations += len(cases_py)
     mism, err = vlib.run_suite_in_coq(ctx.pid, name, HEADER, model_expr, eqb_expr, in_ty, out_ty,
                                       [(c[1], c[2]) for c in cases_py], shard=150)
@@ -407,6 +415,9 @@ def run(ctx):
     T = 'list Q * matQ * list Q * list cone'
     suite(ctx, 'ecos_apply', ecos_cases, 'ecos_apply_q', 'ecos_out_eqb', T,
           'option (matQ * list Q * (nat * nat * list nat) * (matQ * list Q * list Q))', oracle_ecos)
+    # the same cases against ECOS.apply GENERATED from ecos.py / cones.py (Gen/GenForms.v)
+    suite(ctx, 'ecos_apply_generated', ecos_cases, 'gen_ecos_apply_q', 'ecos_out_eqb', T,
+          'option (matQ * list Q * (nat * nat * list nat) * (matQ * list Q * list Q))', oracle_ecos, header=GEN_HEADER)
     suite(ctx, 'separate', sep_cases, 'separate_q', 'separate_out_eqb', 'nat * matQ * list Q * list cone * list ctag',
           'matQ * list Q * list cone * list sepcone', oracle_separate)
     suite(ctx, 'mosek_primal_apply', mp_cases, 'mosek_primal_q', 'mosek_primal_out_eqb', 'nat * list Q * matQ * list Q * list cone',
